@@ -1,7 +1,9 @@
 import Dasp.Driver.Loop
+import Dasp.Driver.Ring
 open Dasp.Driver
 
--- stub: replaced when property C06 is wired in
 def main : IO Unit := runDriver fun
+  | "bounded" :: rest => boundedLine rest
+  | "fixed" :: rest => fixedLine rest
   | [] => ""
   | _ => "bad-op"
